@@ -267,6 +267,10 @@ def hash_value(I, x, state_ref):
     if isinstance(xv, (VecV, SliceRef)):
         hash_seq(I, xv, state_ref)
         return
+    if isinstance(xv, En) and xv.ty == 'IpAddr':
+        hasher_feed(I, state_ref, [('int', 'isize', mk('isize', 0 if xv.var == 'V4' else 1))])
+        hash_value(I, xv.f[0], state_ref)
+        return
     if isinstance(xv, En) and xv.ty == 'Option':
         hasher_feed(I, state_ref, [('int', 'isize', mk('isize', 0 if xv.var == 'None' else 1))])
         if xv.var == 'Some':
